@@ -47,6 +47,24 @@ Proof.
     rewrite (nth_convh _ _ _ Hh) in Hf. cbn [convh fst] in Hf. exact Hf.
 Qed.
 
+(* block_elements of a well-formed partition (either type): never panics on a block of the table, yields as many
+   elements as block_size reports, and exactly the members of the model's block *)
+Lemma g_block_elements n p i : bp_wf n (convbp p) -> (N.of_nat n < 4294967296)%N -> 1 <= N.to_nat i < nblk (convbp p) ->
+  exists sz els, M_BasePartition_block_size p i = Some sz /\ M_BasePartition_block_elements p i = Some els /\
+    N.to_nat sz = length els /\ (forall y, In y els <-> in_blk (convbp p) (N.to_nat i) (N.to_nat y)).
+Proof.
+  intros W Hn Hi. destruct (g_block_read n p i W Hn Hi) as (sz & els & x & E1 & E2 & _ & E4 & E5 & _).
+  exists sz, els. rewrite canon_block_elements. repeat split; try assumption; apply E5.
+Qed.
+Lemma g_fp_block_elements n p i : bp_wf n (convbp (Partition_base p)) -> (N.of_nat n < 4294967296)%N ->
+  1 <= N.to_nat i < nblk (convbp (Partition_base p)) ->
+  exists sz els, M_Partition_block_size p i = Some sz /\ M_Partition_block_elements p i = Some els /\
+    N.to_nat sz = length els /\ (forall y, In y els <-> in_blk (convbp (Partition_base p)) (N.to_nat i) (N.to_nat y)).
+Proof.
+  intros W Hn Hi. destruct (g_block_read n (Partition_base p) i W Hn Hi) as (sz & els & x & E1 & E2 & _ & E4 & E5 & _).
+  exists sz, els. rewrite canon_fp_block_size, canon_fp_block_elements. repeat split; try assumption; apply E5.
+Qed.
+
 (* split_block / add_block never panic on a block of the table and append the new block at index num_blocks *)
 Lemma g_split_block_total p i n h : nth_error (BasePartition_block p) (N.to_nat i) = Some h ->
   (N.of_nat (length (BasePartition_block p)) < 4294967296)%N ->
